@@ -132,6 +132,7 @@ def _herm(spec, ctx, R):
         uc[0, n - 1, 0] = 1.0
         Uq = refq.qa(uc)
         e = np.concatenate([e, [0.0]])
+    A = gen.vary(A, spec["idx"])
     lam1 = e[0]
     u1 = Uq[:, :1]
     r_eff = r if n >= 2 else 0.0
